@@ -279,6 +279,29 @@ def oracle(ctx):
             if o3 != outs[0]:
                 ctx.violation('something of an earlier render is visible in a later one (A, B, A)', {'src': c['src'], 'vars': c['vars'], 'objs': c['objs']},
                               expected=outs[0], actual=o3)
+    # what was compiled earlier in the process must not matter: templates configured with extra_builtins / other options, then an
+    # unrelated template that uses the same names as ordinary variables (expected texts computed by hand)
+    hist_cases = [
+        ({'src': '<p>${label} ${helper(1)}</p>', 'kw': {'extra_builtins': {'label': 'EB', 'helper': lambda x: x + 1}}, 'args': {}, 'want': '<p>EB 2</p>'},
+         {'src': '<p title="${label}">${label}: ${n} ${helper | \'none\'}</p>', 'kw': {}, 'args': {'label': 'Total', 'n': 3}, 'want': '<p title="Total">Total: 3 none</p>'}),
+        ({'src': '<p tal:define="global gx 1">${gx}</p>', 'kw': {}, 'args': {}, 'want': '<p>1</p>'},
+         {'src': '<p>${gx | \'unset\'}</p>', 'kw': {}, 'args': {}, 'want': '<p>unset</p>'}),
+        ({'src': '<p>${x}</p>', 'kw': {'strict': False, 'boolean_attributes': {'title'}}, 'args': {'x': 1}, 'want': '<p>1</p>'},
+         {'src': '<p title="${x}">a</p>', 'kw': {}, 'args': {'x': 'v'}, 'want': '<p title="v">a</p>'}),
+    ]
+    for first, second in hist_cases:
+        for order in ((first, second), (second, first), (first, second, first)):
+            for c in order:
+                ctx.count('evaluations')
+                try:
+                    got = PageTemplate(c['src'], **c['kw'])(**c['args'])
+                except Exception as e:
+                    got = 'raised %s: %s' % (type(e).__name__, str(e).split('\n')[0][:80])
+                if got != c['want']:
+                    ctx.violation('a template renders differently depending on which other templates were compiled earlier in the process',
+                                  {'src': c['src'], 'config': sorted(c['kw']), 'compiled_before': [x['src'] for x in order[:order.index(c)]]},
+                                  expected=c['want'], actual=got)
+            nt += 1
     # render-time engine arguments (translate=, target_language=, encoding=): a call must behave like the first call of a fresh instance
     nt += render_args_sequences(ctx)
     # fresh processes, different hash seeds
